@@ -46,6 +46,7 @@ type dgramRec struct {
 	payload       []byte // UDP payload (for SCION: what the parser shows as the SCION/UDP payload)
 	uidOK, authOK bool
 	entry         *aeadEntry
+	cookies       [][]byte // the cookies the datagram carries in authenticated fields (only if uidOK and authOK)
 	raw           []byte // SCION: the datagram on the underlay
 	front         string // SCION: the parser's view, as a case-file value
 }
@@ -58,6 +59,7 @@ type reqRec struct {
 	s2c         []byte
 	recipes     []recipe
 	sent        []dgramRec
+	ke          [][]byte // the cookies of the key exchange the client made for this exchange, if any
 	timeout     bool // the script ends without a decisive datagram: the client runs into its deadline
 	addr        netip.AddrPort
 }
@@ -80,6 +82,9 @@ type worker struct {
 	reqs     []*reqRec
 	prevPkt  []byte // genuine response of the previous exchange
 	prevUID  []byte
+	keSeq    int
+	keSeen   int
+	lastKE   [][]byte
 }
 
 var (
@@ -177,9 +182,14 @@ func (w *worker) keLoop() {
 			var msg ntske.ExchangeMsg
 			msg.AddRecord(ntske.NextProto{NextProto: ntske.NTPv4})
 			msg.AddRecord(ntske.Algorithm{Algo: []uint16{ntske.AES_SIV_CMAC_256}})
+			var issued [][]byte
 			for i := 0; i < 8; i++ {
-				msg.AddRecord(ntske.Cookie{Cookie: w.rng.Bytes(100)})
+				ck := w.rng.Bytes(100)
+				issued = append(issued, ck)
+				msg.AddRecord(ntske.Cookie{Cookie: ck})
 			}
+			w.keSeq++
+			w.lastKE = issued
 			w.mu.Unlock()
 			msg.AddRecord(ntske.Server{Addr: []byte(w.addrA.String())})
 			msg.AddRecord(ntske.Port{Port: uint16(w.udpPort())})
@@ -254,6 +264,23 @@ func walk(b []byte) (uid []byte, uidFound bool, nonce, ct []byte, authPos int, a
 		pos += l
 	}
 	return
+}
+
+// cookieFields lists the bodies of the cookie fields (0x0204) of a sequence of
+// extension fields, as far as a receiver that needs 28 remaining bytes reads them
+func cookieFields(b []byte, pos, end int) [][]byte {
+	var out [][]byte
+	for end-pos >= 28 {
+		t, l := be16(b, pos), be16(b, pos+2)
+		if l < 4 {
+			return out
+		}
+		if t == 0x204 {
+			out = append(out, takePad(l-4, from(b[:end], pos+4)))
+		}
+		pos += l
+	}
+	return out
 }
 
 func aeadOpen(key, nonce, ct, ad []byte) ([]byte, bool) {
@@ -345,6 +372,8 @@ func (w *worker) build(rc recipe, rq *reqRec, idx int) (payload []byte, fromServ
 	pt := ext(0x204, r.Bytes(100))
 	strip := 0 // 1: no authenticator, 2: no uid, 3: bare header
 	post := func(b []byte) []byte { return b }
+	var clear [][]byte // cleartext cookie fields in front of the authenticator
+	var trailer []byte // bytes behind the authenticator
 
 	switch rc.kind {
 	case 0:
@@ -522,6 +551,34 @@ func (w *worker) build(rc recipe, rq *reqRec, idx int) (payload []byte, fromServ
 		if wantInter {
 			interleavedBase()
 		}
+	case 22:
+		// correctly sealed for ANOTHER request's identifier; the outstanding request's
+		// identifier follows, unauthenticated, behind the authenticator
+		if rc.p1 == 1 && w.prevUID != nil && !bytes.Equal(w.prevUID, rq.uid) {
+			uid = w.prevUID
+		} else {
+			uid = r.Bytes(32)
+		}
+		trailer = ext(0x104, append([]byte(nil), rq.uid...))
+		if rc.p1 == 2 {
+			trailer = append(trailer, ext(0x204, r.Bytes(100))...)
+		}
+	case 23:
+		// forged (not sealed under S2C) with cleartext cookie fields
+		if rc.p1%2 == 0 {
+			key = r.Bytes(32)
+		} else {
+			key = w.c2s
+		}
+		for i := int64(0); i <= rc.p1/2%2; i++ {
+			clear = append(clear, r.Bytes(100))
+		}
+	case 24:
+		// genuine, with a cleartext cookie field in front of the authenticator (authenticated as associated data)
+		if wantInter {
+			interleavedBase()
+		}
+		clear = append(clear, r.Bytes(100))
 	}
 
 	b := h.bytes(r)
@@ -534,9 +591,13 @@ func (w *worker) build(rc recipe, rq *reqRec, idx int) (payload []byte, fromServ
 				b = append(b, ext(0x104, uid)...)
 			}
 		}
+		for _, ck := range clear {
+			b = append(b, ext(0x204, ck)...)
+		}
 		if strip != 1 && len(key) == 32 {
 			b = append(b, authExt(key, nonce, pt, append([]byte(nil), b...))...)
 		}
+		b = append(b, trailer...)
 	}
 	b = post(b)
 	switch rc.kind {
@@ -580,6 +641,9 @@ func (w *worker) udpLoop() {
 		rq.uid, _, _, _, _, _ = walk(raw)
 		w.mu.Lock()
 		rq.s2c = w.s2c
+		if w.keSeq != w.keSeen {
+			rq.ke, w.keSeen = w.lastKE, w.keSeq
+		}
 		k := len(w.reqs)
 		if k < len(w.scripts) {
 			rq.recipes = w.scripts[k]
@@ -595,6 +659,9 @@ func (w *worker) udpLoop() {
 				if af {
 					pt, ok := aeadOpen(rq.s2c, nonce, ct, pl[:ap])
 					d.authOK = ok
+					if ok && d.uidOK {
+						d.cookies = append(cookieFields(pl, 48, ap), cookieFields(pt, 0, len(pt))...)
+					}
 					d.entry = &aeadEntry{key: rq.s2c, nonce: nonce, ad: append([]byte(nil), pl[:ap]...), ct: ct, ok: ok, pt: pt}
 				}
 			}
